@@ -7,6 +7,6 @@ cp "/repo/$F" "/tmp/mut.$$.orig"
 sed -i -E "$EXPR" "/repo/$F"
 if cmp -s "/repo/$F" "/tmp/mut.$$.orig"; then echo "MUTATION DID NOT APPLY"; rm -f /tmp/mut.$$.orig; exit 3; fi
 (cd /repo && git diff --stat -- "$F" | tail -1)
-./run.sh "$ID" "$TIER" | grep -E "VIOLATION|KNOWN|ABORT|BUILD|^C[0-9]+ |key=" | head -12
+./run.sh "$ID" "$TIER" | grep -E "VIOLATION|KNOWN|ABORT|BUILD|^C[0-9]+ |key=" | head -12 | cut -c1-400
 cp "/tmp/mut.$$.orig" "/repo/$F"; rm -f /tmp/mut.$$.orig
 (cd /repo && git status --short | grep -v 'asm/asm' )
